@@ -48,6 +48,7 @@ PURE_NAMES = {
     "to_ne_bytes", "from_ne_bytes", "to_le", "to_be", "from_le", "from_be", "swap_bytes", "reverse_bits", "rotate_left", "rotate_right",
     "wrapping_neg", "wrapping_shl", "wrapping_shr", "count_ones", "count_zeros", "is_power_of_two", "abs_diff", "div_ceil",
     "saturating_sub", "saturating_add", "checked_sub", "checked_add", "checked_mul", "then_some", "as_ptr_range", "as_mut_ptr_range",
+    "addr", "offset_from_unsigned", "slice_from_raw_parts", "slice_from_raw_parts_mut", "cast_signed", "cast_unsigned", "is_none_or", "is_some_and",
 }
 PURE_PREFIX = ("core::", "std::", "alloc::")
 # never pure whatever the name: they write through their first argument
@@ -447,6 +448,8 @@ class CT:
             return "%s.%s" % (r(x[1]), self.ren.get(x[2], x[2]))
         if k == "agg":
             if x[1] == "adt":
+                if (x[2] or "") == "core::iter::adapters::copied::Copied" and len(x[5]) == 1:
+                    return "copied(%s)" % r(x[5][0])          # the engine's value form of `iter.copied()`: printed as the call it stands for
                 nm = (x[2] or "").split("::")[-1]
                 if x[3] and x[3] != nm:
                     nm += "::" + x[3]
@@ -547,6 +550,8 @@ class CT:
             args = sorted(args)
         if nm == "as_mut_ptr":
             nm = "as_ptr"           # same address; mutability of the pointer is a type-level matter
+        if nm in ("slice_from_raw_parts", "slice_from_raw_parts_mut") and (c.get("def") or "").startswith(("core::ptr", "std::ptr")):
+            nm = nm[len("slice_"):]          # the raw slice pointer `&*`/`&mut *` turns into the slice `from_raw_parts(_mut)` builds
         if nm == "default" and (c.get("trait") or "").endswith("default::Default") and not args:
             # `Default::default()` of a std / heapless collection is its `new()`
             st = re.sub(r"<.*$", "", c.get("self_ty") or (c.get("args") or [""])[0] or "")
